@@ -28,14 +28,21 @@ def c18EventJson : Event → Json
   | .msg .complete => .str "complete"
   | .connError => .str "connError"
 
+/-- the registry part of a model state, as a string (the harness counts the distinct states its scenarios visit) -/
+def c18Fingerprint (st : St) : String :=
+  String.intercalate ";" (st.conns.map fun c =>
+    s!"{c.cid}/{c.key}:" ++ String.intercalate "," (c.regs.map fun r => s!"{r.id}>{r.sub}"))
+
 /-- `c18.run {ops, subscribers}` → per subscriber the delivered events, the number of dials, the live connections,
     and per op the number of events it delivers -/
 def c18run (args : Json) : Json :=
-  let (st, expect, connsAfter) := (args.arrD "ops").foldl (fun (acc : St × List Nat × List Nat) j =>
+  let (st, expect, connsAfter, fps) := (args.arrD "ops").foldl (fun (acc : St × List Nat × List Nat × List String) j =>
     match c18Resolve acc.1 j with
-    | some a => let st' := step acc.1 a; (st', acc.2.1 ++ [st'.log.length - acc.1.log.length], acc.2.2 ++ [st'.conns.length])
-    | none => (acc.1, acc.2.1 ++ [0], acc.2.2 ++ [acc.1.conns.length])) (({} : St), [], [])
+    | some a => let st' := step acc.1 a; (st', acc.2.1 ++ [st'.log.length - acc.1.log.length], acc.2.2.1 ++ [st'.conns.length],
+        acc.2.2.2 ++ [c18Fingerprint st'])
+    | none => (acc.1, acc.2.1 ++ [0], acc.2.2.1 ++ [acc.1.conns.length], acc.2.2.2)) (({} : St), [], [], [])
   .obj [("dials", Json.ofNat st.dials),
+        ("states", .arr (fps.map Json.str)),
         ("conns", .arr (st.conns.map fun c => .obj [("cid", Json.ofNat c.cid), ("key", Json.ofNat c.key),
             ("regs", .arr (c.regs.map fun r => .obj [("id", Json.ofNat r.id), ("sub", Json.ofNat r.sub)]))])),
         ("delivered", .arr ((List.range (args.natD "subscribers")).map fun s => .arr ((delivered st s).map c18EventJson))),
